@@ -8,7 +8,7 @@ from hv.props._scopes import GLOBAL, LOG, NONLOCAL, SETV
 
 META = {
     "engine": "symx+pyvc",
-    "level": "proof",
+    "level": "other",
     "technique": "contract-based: (1) contracts of the renaming protocol (ScopeLet.add/access/assign/define/_rename_if_bound, "
                  "ScopeFn.__exit__ propagation) checked by symbolic execution of the real methods over an abstract bindings "
                  "map (pyvc, z3); (2) resolution postcondition of the whole compiler: for every program skeleton within the "
@@ -21,7 +21,7 @@ META = {
             "nothing outside the body is. That provision is what is decided: contracts on the scope protocol, and a complete "
             "enumeration of the skeleton space the property quantifies over (spines of let / fn / defn / closure-called-later "
             "/ lfor with assignments and reads before, inside and after each construct), each compared with the reference.",
-    "note": "Trusted: the reference renamer (lexical substitution, ~60 lines) and CPython as executor of both sides; the "
+    "note": "Level `other`: the scope-protocol contracts are proved structurally, but the deciding component is the complete enumeration of the skeleton space (exhaustive over a finite domain, not a deductive proof). Trusted: the reference renamer (lexical substitution, ~60 lines) and CPython as executor of both sides; the "
             "skeleton grammar (spines with pre/post statements) stands for the generated-program quantifier of the property; "
             "exhaustive within depth 3 in the quick tier and depth 4 in the thorough tier.",
 }
